@@ -23,7 +23,11 @@ RULE = ("A case is a plan over 1-4 fake nodes (a fixed load-balancing plan in an
         "RETRY_NEXT_HOST / RETRY / RETHROW, healthy.  Enumerated exhaustively for plan length <= 3 (quick) / <= 4 (thorough).  "
         "Oracle: the sequence of hosts that received a frame, the outcome (rows / the server's error / NoHostAvailable only "
         "after the whole plan was walked) and the key set and reason classes of NoHostAvailable.errors equal the reference "
-        "walk.  Non-trivial: at least 2 plan hosts were visited and at least one was not healthy.  Distinct by case digest.")
+        "walk.  A second family keeps several attempts of one execution in flight on different plan hosts (1-3 speculative "
+        "executions over 2-4 healthy hosts) and answers a chosen in-flight host with a retryable server error + RETRY / "
+        "RETRY_NEXT_HOST / RETHROW / IGNORE or with rows: RETRY must re-send to the host that answered, RETRY_NEXT_HOST to the "
+        "next plan host not yet used, and NoHostAvailable.errors must blame the hosts that answered.  "
+        "Non-trivial: at least 2 plan hosts were visited and at least one was not healthy.  Distinct by case digest.")
 ASSUMPTIONS = ["network, clock, executor and event loop are simulated (sim/); Cluster, Session, pools, connections, "
                "ResponseFuture are the real classes",
                "pool states are installed directly (session._pools.pop, pool.shutdown(), held filler requests on a connection "
@@ -218,6 +222,172 @@ def _run(case, ctx, sim):
     ctx.nontrivial(visited >= 2 and any(s != "ok" for s in eff_states[:visited]))
 
 
+# --------------------------------------------------------------------------- speculative executions in flight
+def interpret_spec(case, ctx):
+    sim = U.Sim(tape=case.get("tape", []), granularity=case.get("gran", "blocking"))
+    try:
+        with sim:
+            _run_spec(case, ctx, sim)
+    except U.StepBudgetExceeded:
+        ctx.stats.inconclusive += 1
+        ctx.label("inconclusive:step-budget")
+
+
+def _run_spec(case, ctx, sim):
+    """Several attempts of one execution are in flight on different plan hosts (speculative executions); the
+    steps answer a chosen in-flight host with a retryable server error + a retry decision, or with rows.
+    Reference: RETRY re-sends to the host that ANSWERED, RETRY_NEXT_HOST goes to the next plan host nobody
+    was sent to yet (NoHostAvailable when there is none), every error is filed under the host that answered."""
+    from cassandra.cluster import ExecutionProfile, NoHostAvailable
+    from cassandra.policies import ConstantSpeculativeExecutionPolicy
+    from cassandra.query import SimpleStatement
+    net = sim.net
+    n, k = case["nodes"], min(case["spec"], case["nodes"] - 1)
+    steps = case["steps"]
+    decisions = [[st_[2], None] for st_ in steps if st_[1] != "rows"]
+    rlog = []
+    prof = ExecutionProfile(load_balancing_policy=U.fixed_plan_policy(), retry_policy=F.scripted_policy(decisions, rlog),
+                            request_timeout=None,
+                            speculative_execution_policy=ConstantSpeculativeExecutionPolicy(case["delay"], k))
+    warm = case.get("warm", 0)
+    cluster, session, nodes = F.build(sim, n, prof, max_in_flight=4)
+    with ctx.driver(["C17.spec.warmup"]):
+        F.warm_up(sim, session, cluster, nodes, warm)
+    if ctx._failures:
+        return
+    index = dict((nd.address, i) for i, nd in enumerate(nodes))
+    got = []
+
+    def user(node, conn, req):
+        if not F.is_user(req) or conn.is_control_connection:
+            return None
+        got.append(index[node.address])
+        return ("hold",)
+    for nd in nodes:
+        nd.on_request = user
+    outs = []
+    session.add_request_init_listener(lambda f: outs.append(F.Outcome(sim, f)))
+    fut = None
+    with ctx.driver(["C17.spec.execute_async"]):
+        fut = sim.call(session.execute_async, SimpleStatement(F.USER_Q, is_idempotent=True))
+    if fut is None:
+        return
+    sim.settle()
+    sim.advance(case["delay"] * k + 0.05)
+    sim.settle()
+    if got != list(range(k + 1)):
+        ctx.fail(["C17.spec.order", "initial-attempts"],
+                 "first attempt + %d speculative executions went to hosts %r, expected plan order %r" % (k, got, list(range(k + 1))))
+        return
+    in_flight = list(range(k + 1))
+    next_plan = k + 1
+    errored = {}
+    outcome = None
+    used = 0
+    earlier_answered_first = False
+    for (rank, answer, decision) in steps:
+        if outcome is not None or not in_flight:
+            break
+        h = in_flight[rank % len(in_flight)]
+        if h != in_flight[-1] and answer != "rows":
+            earlier_answered_first = True
+        held = [(nd, c, r) for (nd, c, r) in U.all_held(net) if index[nd.address] == h]
+        if not held:
+            ctx.fail(["C17.spec.harness", "no-held-request"], "host %d should hold a request (in flight %r, frames %r)" % (h, in_flight, got))
+            return
+        before = len(got)
+        nd, c, r = held[0]
+        kind = answer if answer == "rows" else KINDS[(h + case.get("kind_shift", 0)) % len(KINDS)]
+        U.release(net, nd, c, r, kind)
+        used += 1
+        sim.settle()
+        sim.advance(0.01)
+        sim.settle()
+        in_flight.remove(h)
+        want_new = []
+        if answer == "rows":
+            outcome = ("result", [(1, "x")])
+        else:
+            errored[h] = F.ERRORS[kind][1]
+            if decision == "retry":
+                want_new = [h]
+                in_flight.append(h)
+            elif decision == "next_host":
+                if next_plan < n:
+                    want_new = [next_plan]
+                    in_flight.append(next_plan)
+                    next_plan += 1
+                else:
+                    outcome = ("nha", dict(errored))
+            elif decision == "rethrow":
+                outcome = ("error", F.ERRORS[kind][1])
+            else:
+                outcome = ("result", [])
+        new = got[before:]
+        if new != want_new:
+            ctx.fail(["C17.spec.order", "decision=%s" % (decision if answer != "rows" else "rows"),
+                      "answered=%s" % ("earlier-attempt" if h != got[before - 1] else "latest-attempt")],
+                     "host %d answered %s (decision %s) while attempts were in flight on %r: new frames went to %r, expected %r "
+                     "(all frames %r)" % (h, kind, decision, sorted(set(in_flight) | {h}), new, want_new, got))
+            return
+    # ---- outcome
+    if outcome is not None:
+        if not F.done(fut) or not outs or not outs[0].events:
+            ctx.fail(["C17.spec.outcome", "incomplete", "expected=%s" % outcome[0]], "expected %r but the future has no outcome; frames %r" % (outcome, got))
+        else:
+            _t, kind, val = outs[0].events[0]
+            if outcome[0] == "result":
+                rows = [tuple(x) for x in (val or [])] if kind == "ok" else None
+                if rows != outcome[1]:
+                    ctx.fail(["C17.spec.outcome", "expected=rows", "got=%s" % ("rows" if kind == "ok" else F.exc_name(val))],
+                             "expected rows %r, got %r" % (outcome[1], val))
+            elif outcome[0] == "error":
+                if kind != "err" or F.exc_name(val) != outcome[1]:
+                    ctx.fail(["C17.spec.outcome", "expected=%s" % outcome[1], "got=%s" % ("rows" if kind == "ok" else F.exc_name(val))],
+                             "expected %s, got %r" % (outcome[1], val))
+            else:
+                if kind != "err" or not isinstance(val, NoHostAvailable):
+                    ctx.fail(["C17.spec.exhaustion", "not-reported", "got=%s" % ("rows" if kind == "ok" else F.exc_name(val))],
+                             "plan exhausted by RETRY_NEXT_HOST (errors so far %r) but the outcome is %r" % (errored, val))
+                else:
+                    errs = dict((index.get(getattr(getattr(hh, "endpoint", None), "address", hh), str(hh)), F.exc_name(e))
+                                for hh, e in val.errors.items())
+                    if errs != outcome[1]:
+                        ctx.fail(["C17.spec.exhaustion", "errors"],
+                                 "NoHostAvailable.errors blames %r, the hosts that answered with errors are %r" % (errs, outcome[1]))
+    elif F.done(fut):
+        ctx.fail(["C17.spec.outcome", "premature"], "the future completed (%r) although no answer decided it; frames %r" % (
+            outs[0].events[:1] if outs else None, got))
+    # drain what is still held
+    for _ in range(12):
+        held = U.all_held(net)
+        if not held:
+            break
+        U.release(net, held[0][0], held[0][1], held[0][2], "rows")
+        sim.settle()
+    ctx.label("speculative", "spec=%d" % k, "steps-used=%d" % used, "spec-outcome=%s" % (outcome[0] if outcome else "open"))
+    if earlier_answered_first:
+        ctx.label("earlier-attempt-answered-with-error")
+    ctx.nontrivial(used >= 1 and k >= 1)
+
+
+def s_spec_case(gran):
+    step = st.tuples(st.integers(0, 3),
+                     st.sampled_from(["error", "error", "error", "rows"]),
+                     st.sampled_from(["retry", "retry", "next_host", "next_host", "rethrow", "ignore"])).map(list)
+    return st.fixed_dictionaries({
+        "nodes": st.sampled_from([2, 3, 3, 4]),
+        "spec": st.sampled_from([1, 1, 2, 3]),
+        "delay": st.sampled_from([0.0, 0.02]),
+        "steps": st.lists(step, min_size=1, max_size=5),
+        "kind_shift": st.integers(0, 3),
+        "warm": st.sampled_from([0, 1, 2, 3]),
+        "tape": st.lists(st.integers(0, 3), max_size=30 if gran == "locks" else 6),
+        "gran": st.just(gran),
+    })
+
+
+
 # --------------------------------------------------------------------------- enumeration
 def _chunks(tier):
     out = []
@@ -278,4 +448,8 @@ def parts(tier):
                  quick_shards=1, thorough_shards=8),
         hyp_part("locks", lambda: s_case("locks"), interpret, tier, quick=40, thorough=500,
                  quick_shards=1, thorough_shards=4),
+        hyp_part("speculative", lambda: s_spec_case("blocking"), interpret_spec, tier, quick=150, thorough=1500,
+                 quick_shards=1, thorough_shards=6),
+        hyp_part("speculative-locks", lambda: s_spec_case("locks"), interpret_spec, tier, quick=30, thorough=400,
+                 quick_shards=1, thorough_shards=2),
     ]
